@@ -135,6 +135,14 @@ func runC17(c *Ctx) {
 			both(float64(r.Int63n(1<<61)) / 1e8)
 		}
 	}
+	// exact ties: f * 1e8 is exactly k + 1/2 iff f is an odd multiple of 1/512 (no floating-point rounding anywhere:
+	// the tie goes away from zero)
+	for m := int64(1); m < int64(c.Pick(1200, 20000)); m += 2 {
+		both(float64(m) / 512)
+	}
+	for k := 0; k < c.Pick(300, 5000); k++ {
+		both(float64(2*r.Int63n(5000000000)+1) / 512)
+	}
 	for _, f := range []float64{0, math.Copysign(0, -1), math.SmallestNonzeroFloat64, 5e-324 * 3, 2.2250738585072014e-308, math.NaN(), math.Inf(1), math.Inf(-1), 1e-9, 4.9e-9, 5e-9, 5.1e-9} {
 		both(f)
 	}
@@ -176,6 +184,13 @@ func runC17(c *Ctx) {
 				c.Call(Event{"op": "ToUnit", "a": idec(x), "u": u})
 				c.Call(Event{"op": "Format", "a": idec(x), "u": u})
 			}
+		}
+	}
+	// every exponent -12..12 (and a few outside) for a handful of amounts: unit labels and scaling
+	for u := -14; u <= 14; u++ {
+		for _, v := range []int64{0, 1, 123456789, 2100000000000000, -5} {
+			c.Call(Event{"op": "Format", "a": idec(v), "u": u})
+			c.Call(Event{"op": "ToUnit", "a": idec(v), "u": u})
 		}
 	}
 	// planner (untrusted): amounts whose exact quotient a / 10^(u+8) lies within 2^-12 ulp of the midpoint between two
